@@ -32,19 +32,19 @@ type allowedRec struct {
 }
 
 type violation struct {
-	Property string    `json:"property"`
-	Message  string    `json:"message"`
-	Sig      string    `json:"sig"`
-	Conc     string    `json:"conc"`
-	Seed     int64     `json:"seed"`
-	Derived  int       `json:"derived"`
-	NKeys    int       `json:"nkeys"`
-	NStr     int       `json:"nstr"`
+	Property string       `json:"property"`
+	Message  string       `json:"message"`
+	Sig      string       `json:"sig"`
+	Conc     string       `json:"conc"`
+	Seed     int64        `json:"seed"`
+	Derived  int          `json:"derived"`
+	NKeys    int          `json:"nkeys"`
+	NStr     int          `json:"nstr"`
 	Lits     []model.Cell `json:"lits"`
-	Strs     []string  `json:"strs"`
-	Steps    []stepRec `json:"steps"`
-	Phase    string    `json:"phase"`
-	Replay   string    `json:"replay,omitempty"`
+	Strs     []string     `json:"strs"`
+	Steps    []stepRec    `json:"steps"`
+	Phase    string       `json:"phase"`
+	Replay   string       `json:"replay,omitempty"`
 }
 
 type replayCfg struct {
@@ -533,28 +533,28 @@ func cmdReplay(args []string) int {
 		}
 	}
 	summary := map[string]any{
-		"graph_states":         len(g.States),
-		"graph_edges":          g.NEdges,
-		"graph_op_instances":   groups,
-		"states_visited":       statesVisited,
-		"cover_runs":           coverDone,
-		"paths_exhaustive":     exhaustivePaths,
-		"paths_depth":          *depth,
-		"paths_complete":       exhaustiveComplete,
-		"walks":                walksDone,
-		"walk_len":             *walkLen,
-		"steps":                rn.steps,
-		"behaviours_cut":       rn.skipped,
+		"graph_states":           len(g.States),
+		"graph_edges":            g.NEdges,
+		"graph_op_instances":     groups,
+		"states_visited":         statesVisited,
+		"cover_runs":             coverDone,
+		"paths_exhaustive":       exhaustivePaths,
+		"paths_depth":            *depth,
+		"paths_complete":         exhaustiveComplete,
+		"walks":                  walksDone,
+		"walk_len":               *walkLen,
+		"steps":                  rn.steps,
+		"behaviours_cut":         rn.skipped,
 		"spare_capacity_detours": rn.detours,
-		"api_calls":            rn.calls,
-		"behaviours":           rn.paths,
-		"distinct_state_ops":   len(rn.distinct),
-		"samples":              rn.samples,
-		"violations":           rn.viol,
-		"timed_out":            timedOut,
-		"conc":                 *concMode,
-		"derived":              *derived,
-		"wall_s":               time.Since(start).Seconds(),
+		"api_calls":              rn.calls,
+		"behaviours":             rn.paths,
+		"distinct_state_ops":     len(rn.distinct),
+		"samples":                rn.samples,
+		"violations":             rn.viol,
+		"timed_out":              timedOut,
+		"conc":                   *concMode,
+		"derived":                *derived,
+		"wall_s":                 time.Since(start).Seconds(),
 	}
 	b, _ := json.MarshalIndent(summary, "", " ")
 	if *out != "" {
